@@ -534,39 +534,26 @@ def main(tier):
                     lam_loops += len(CFG(cl.mir).natural_loops())
             run.ob(nl + lam_loops == found, "loop-count|%s" % g.key.replace("parser::Parser::", ""), "C02 every natural loop of the MIR is accounted for by a classified loop construct", "%s (%s)" % (g.key, g.file),
                    "MIR has %d natural loops (+%d in closures), THIR classification saw %d" % (nl, lam_loops, found), distinct="loop-count|%s" % g.key)
-        # eval recursion: arguments of recursive calls are strict sub-terms (children / elements of the argument list)
+        # eval recursion: every Node handed to a recursive call is a strict sub-term of the argument.  Typed argument
+        # (sc/treewalk.py): the evaluator constructs no Node and uses Nodes only by passing them on (rules B, U), so every
+        # Node it can pass is a sub-term of its argument; the walk uses its own argument only as the scrutinee of its
+        # top-level match, whose arms bind the children (rules P, self)
         ef = m.tb.eval_fn()
         if ef is not None:
-            bad = []
-            nrec = 0
+            from ..treewalk import analyse as tw_analyse
             wn = m.tb.eval_names()
-            rec_names = {"Ast." + p_.split("::")[-1] for p_ in (wn if isinstance(wn, tuple) else (wn,))} | {"Ast.eval"}
             walkers.update(wn if isinstance(wn, tuple) else (wn,))
-            for ctor, a in m.tb.eval_arms().items():
-                binders = set()
-                for s in subterms(a["term"]):
-                    if isinstance(s, tuple) and s and s[0] == "for" and M(("call", "iter", ("C0",)), s[2]) is not None:
-                        e = M(("bind", "?b"), s[1])
-                        if e:
-                            binders.add(e["?b"])
-                    e = M(("match", ("call", "[T]::first", ("C0",)), "..."), s)
-                    if e is not None:
-                        for arm in s[2:]:
-                            for q in subterms(arm[0]):
-                                e2 = M(("bind", "?b"), q)
-                                if e2:
-                                    binders.add(e2["?b"])
-                for s in subterms(a["term"]):
-                    if isinstance(s, tuple) and len(s) >= 2 and s[0] == "call" and s[1] not in rec_names:
-                        hf = m.tb.resolve_local(s[1])
-                        if hf is not None and ef.path in F.reach([hf.path]):
-                            bad.append("%s: recursion through %s, which could not be inlined" % (ctor, s[1]))
-                    if isinstance(s, tuple) and ((len(s) == 2 and s[0] == "ev") or (len(s) == 3 and s[0] == "call" and s[1] in rec_names)):
-                        nrec += 1
-                        x = s[-1]
-                        if not (isinstance(x, tuple) and ((re.match(r"^C\d+$", str(x[0])) and len(x) == 1) or (x[0] == "var" and x[1] in binders))):
-                            bad.append("%s: eval(%s)" % (ctor, T.show(x)[:60]))
-            run.ob(not bad, "recursion|eval|%s" % ev, "C02 eval recurses only on strict sub-terms of its argument", where(m, "::ast::eval"), "; ".join(bad[:3]), sample={"evaluator": ev, "recursive_calls": nrec})
+            viol, nuses, nfns = tw_analyse(F, ev, set(m.tb._cache.get("walker_names", ())), None)
+            bad = ["%s: %s" % (k_, d_) for (k_, w_, d_) in viol]
+            run.ob(not bad, "recursion|eval|%s" % ev, "C02 eval recurses only on strict sub-terms of its argument", where(m, "::ast::eval"), "; ".join(bad[:3])[:400], sample={"evaluator": ev, "node_typed_uses_inspected": nuses})
+    # linear use of children: each child is evaluated at most once per evaluation of its node (typed rule, sc/linear.py)
+    from ..linear import analyse as linear_analyse
+    for ev, m in models.items():
+        m.tb.eval_fn()
+        viol, nv, nf = linear_analyse(F, ev, set(m.tb._cache.get("walker_names", ())))
+        for key, wh, detail in viol:
+            run.ob(False, "linear|%s|%s" % (ev, key), "C02 a child is evaluated at most once per evaluation of its node (otherwise work multiplies with the nesting depth)", wh, detail)
+        run.ob(True, "linear|%s" % ev, "C02 linear use of children", ev, sample={"evaluator": ev, "functions_scanned": nf, "node_or_list_variables": nv, "evaluated_more_than_once": len(viol)})
     # call-graph SCCs in reach: only the parser SCCs, eval, and derived impls may be recursive
     edges, _, _ = F.callgraph()
     nodes = [p for p in reach]
